@@ -121,7 +121,7 @@ class VttContext:
           self._css_classes.append(CssClass("color", color, color_classname))
         else:
           color_classname = self._colors_used[color]
-        self._paragraphs[-1].append_text(style.COLOR_TAG_IN.format(color_classname))
+        self._paragraphs[-1].append_tag(style.COLOR_TAG_IN.format(color_classname))
 
       if bg_color is not None:
         if self._background_colors_used.get(bg_color) is None:
@@ -130,28 +130,28 @@ class VttContext:
           self._css_classes.append(CssClass("background-color", bg_color, bg_color_classname))
         else:
           bg_color_classname = self._background_colors_used[bg_color]
-        self._paragraphs[-1].append_text(style.BG_COLOR_TAG_IN.format(bg_color_classname))
+        self._paragraphs[-1].append_tag(style.BG_COLOR_TAG_IN.format(bg_color_classname))
 
       if is_bold:
-        self._paragraphs[-1].append_text(style.BOLD_TAG_IN)
+        self._paragraphs[-1].append_tag(style.BOLD_TAG_IN)
       if is_italic:
-        self._paragraphs[-1].append_text(style.ITALIC_TAG_IN)
+        self._paragraphs[-1].append_tag(style.ITALIC_TAG_IN)
       if is_underlined:
-        self._paragraphs[-1].append_text(style.UNDERLINE_TAG_IN)
+        self._paragraphs[-1].append_tag(style.UNDERLINE_TAG_IN)
 
       for elem in list(element):
         self.process_inline_element(elem, begin, end)
 
       if is_underlined:
-        self._paragraphs[-1].append_text(style.UNDERLINE_TAG_OUT)
+        self._paragraphs[-1].append_tag(style.UNDERLINE_TAG_OUT)
       if is_italic:
-        self._paragraphs[-1].append_text(style.ITALIC_TAG_OUT)
+        self._paragraphs[-1].append_tag(style.ITALIC_TAG_OUT)
       if is_bold:
-        self._paragraphs[-1].append_text(style.BOLD_TAG_OUT)
+        self._paragraphs[-1].append_tag(style.BOLD_TAG_OUT)
       if color is not None:
-        self._paragraphs[-1].append_text(style.COLOR_TAG_OUT)
+        self._paragraphs[-1].append_tag(style.COLOR_TAG_OUT)
       if bg_color is not None:
-        self._paragraphs[-1].append_text(style.BG_COLOR_TAG_OUT)
+        self._paragraphs[-1].append_tag(style.BG_COLOR_TAG_OUT)
 
     if isinstance(element, (model.Ruby, model.Rbc, model.Rb)):
       # only the base text of ruby is written
